@@ -654,6 +654,13 @@ def run_job(job) -> report.JobResult:
     fam = job["family"]
     K = job["K"]
     forms = job["forms"]
+    raw_parsed = None
+    if job.get("raw_text"):
+        # the Range header as concrete TEXT through the real regex (ReShim) and the real int(): long numbers, padding -- what the header denotes
+        # is computed by the grammar-level reference parser of C03
+        raw_parsed = C3.parse_specs_concrete(job["raw_text"])
+        forms = ["ab" if a is not None and b is not None else "a-" if b is None else "-b" for a, b in raw_parsed]
+        job = dict(job, forms=forms)
     eng = Engine(budget_s=job.get("budget", 1500), render_digits=job.get("D", 4) + 3)
     eng.token_alphabet = "ctl"
     eng.render_opaque = fam == "data"
@@ -665,6 +672,9 @@ def run_job(job) -> report.JobResult:
     k = len(forms) if forms else 0
     Av = [z3.Int(f"a{i}") for i in range(k)]
     Bv = [z3.Int(f"b{i}") for i in range(k)]
+    if raw_parsed is not None:
+        Av = [z3.IntVal(a if a is not None else 0) for a, _ in raw_parsed]
+        Bv = [z3.IntVal(b if b is not None else 0) for _, b in raw_parsed]
     eng.solver.add(*[a >= 0 for a in Av], *[b >= 0 for b in Bv])
     if fam == "framing":
         eng.solver.add(*[a < 10 ** job["D"] for a in Av], *[b < 10 ** job["D"] for b in Bv])
@@ -674,6 +684,11 @@ def run_job(job) -> report.JobResult:
     eng.solver.add(size_v <= K * chunk_v)
     shims, osh = install_shims(size, specs, K)
     range_hdr = "bytes=x" if forms else job.get("raw_range")
+    if raw_parsed is not None:
+        from engine.reshim import ReShim
+        from engine.shims import int_shim
+        shims.add(R, re=ReShim, int=int_shim)
+        range_hdr = job["raw_text"]
     ifk = job["if_range"]
 
     def fn():
@@ -731,7 +746,7 @@ def run_job(job) -> report.JobResult:
         m = e.solver.model()
         sz = m.eval(size_v, True).as_long()
         ch = m.eval(chunk_v, True).as_long()
-        hdr_txt = C3.header_of(forms, [m.eval(a, True).as_long() for a in Av], [m.eval(b, True).as_long() for b in Bv]) if forms else job.get("raw_range")
+        hdr_txt = job["raw_text"] if raw_parsed is not None else C3.header_of(forms, [m.eval(a, True).as_long() for a in Av], [m.eval(b, True).as_long() for b in Bv]) if forms else job.get("raw_range")
         wit = {"iface": job["iface"], "method": job["method"], "size": sz, "chunk_size": ch, "range": hdr_txt, "if_range": ifk, "content_type": job["ctype"], "reuse": bool(job.get("reuse")), "subclass": bool(job.get("subclass")), "mtime_ns": job.get("mtime_ns")}
         small = sz <= 200000
         if klass is not None:
@@ -788,6 +803,11 @@ def jobs(tier: str):
                     out.append(dict(name=name, family="data", iface=iface, method=method, forms=forms, if_range=ifk,
                                     ctype="text/plain", K=K, weight=(9 ** k) * (3 if iface == "asgi" else 1)))
         # octet-stream adds content-disposition (download name) to the framing
+        # header text through the real regex: 20-digit numbers (beyond every machine word) and zero-padded ones
+        for ti, text in enumerate(["bytes=10000000000000000000-", "bytes=30000000000000000002-5", "bytes=0-1, 10000000000000000004-",
+                                   "bytes=00000000000000000000002-5", "bytes=-00000000000000000000003"]):
+            out.append(dict(name=f"data/{iface}/GET/rawtext{ti}", family="data", iface=iface, method="GET", forms=["ab"], raw_text=text, if_range=None,
+                            ctype="text/plain", K=K, weight=20))
         # modification times with a fraction: the Last-Modified the response announces and the date If-Range is compared with are the same text
         for tag, ns in (("frac-.9999997", 1700000000_999999700), ("frac-.5", 1700000000_500000000), ("frac-.000001", 1700000000_000001000)):
             for ifk in ("lastmod", "etag"):
